@@ -13,7 +13,8 @@
 (***************************************************************************)
 EXTENDS SecureChannel, Json
 
-CONSTANTS GenMode, GenDepth, ScriptIds
+CONSTANTS GenMode, GenDepth, ScriptIds,
+          HandoffEnds   \* endpoints that attempt hand-offs in mode "script"
 
 VARIABLES hist, gphase, script, pc
 
@@ -117,6 +118,20 @@ Script(id) ==
        S("StartMsg","ab"), S("WriteBuf","ab"), S("EndMsg","ab"), R("ab","complete"), S("RecvStep","ab"),
        S("StartDirect","ab"), S("SendFinal","ab"), R("ab","complete"), S("RecvStep","ab"),
        S("StartDirect","ba"), S("SendFinal","ba"), R("ba","complete"), S("RecvStep","ba") >>
+    [] id = 6 ->   \* short ping-pong used for chains of hand-offs of one side
+    << S("StartDirect","ab"), S("SendFinal","ab"), R("ab","complete"), S("RecvStep","ab"),
+       S("StartDirect","ba"), S("SendFinal","ba"), R("ba","complete"), S("RecvStep","ba"),
+       S("StartDirect","ab"), S("SendFinal","ab"), R("ab","complete"), S("RecvStep","ab"),
+       S("StartDirect","ba"), S("SendFinal","ba"), R("ba","start"), S("RecvStep","ba"), S("EndRead","ba"),
+       S("StartMsg","ab"), S("WriteBuf","ab"), S("EndMsg","ab"), R("ab","complete"), S("RecvStep","ab") >>
+    [] id = 7 ->   \* a sender keeps trying after it was refused at the counter limit
+    << S("StartDirect","ab"), S("SendFinal","ab"), S("StartDirect","ab"), S("SendFinal","ab"),
+       S("StartDirect","ab"), S("SendFinal","ab"), S("StartDirect","ab"), S("SendPartial","ab"), S("SendFinal","ab"),
+       S("StartMsg","ab"), S("WriteBuf","ab"), S("EndMsg","ab"),
+       S("StartDirect","ba"), S("SendFinal","ba"), S("StartDirect","ba"), S("SendFinal","ba"),
+       S("StartDirect","ba"), S("SendFinal","ba"),
+       R("ab","complete"), S("RecvStep","ab"), R("ab","complete"), S("RecvStep","ab"),
+       R("ba","complete"), S("RecvStep","ba"), R("ba","complete"), S("RecvStep","ba") >>
     [] OTHER -> << >>
 
 DoStep(s) ==
@@ -161,7 +176,8 @@ ScriptNext ==
      /\ pc' = pc + 1
      /\ UNCHANGED <<gphase, script>>
   \/ /\ pc <= Len(Script(script)) + 1
-     /\ \E e \in End : GHandoff(e) \/ \E bf \in BlobFaults : GHandoffBad(e, bf)
+     \* (damaged blobs only as the first hand-off attempt of a behaviour: keeps the count down)
+     /\ \E e \in HandoffEnds : GHandoff(e) \/ (handoffs = 0 /\ \E bf \in BlobFaults : GHandoffBad(e, bf))
      /\ UNCHANGED <<gphase, script, pc>>
 
 FreeNext ==
